@@ -426,7 +426,8 @@ class KademliaProtocol(DatagramProtocol):
         self.received_request_metric.labels(method=request_datagram.method).inc()
         self.peer_manager.report_last_requested(address[0], address[1])
         peer = self.routing_table.get_peer(request_datagram.node_id)
-        if not peer:
+        if not peer or (peer.address, peer.udp_port) != (address[0], address[1]):
+            # a known node id proves nothing about who sent this: reply to (and rate) the actual sender
             try:
                 peer = make_kademlia_peer(request_datagram.node_id, address[0], address[1])
             except ValueError as err:
